@@ -515,21 +515,74 @@ func checkC20(c *Ctx) {
 	// ---------------- R20.4 ----------------
 	lf := c.Func(ZapPath, "LevelFlag")
 	if c.Anchor("R20.4", "zap.LevelFlag", lf != nil) {
-		var reg ssa.Value
-		for _, cl := range Calls(lf) {
-			if IsCallTo(cl, "flag.Var") {
-				if mi, ok := cl.Common().Args[0].(*ssa.MakeInterface); ok {
-					reg = mi.X
+		// by path exploration (helpers inline): a fresh Level variable is initialised with the default, its address is
+		// registered with the process-wide flag set (flag.Var, or Var on flag.CommandLine), and that very address is
+		// returned
+		resolve := func(st *ConcState, v ssa.Value) ssa.Value {
+			for k := 0; k < 16; k++ {
+				switch x := v.(type) {
+				case *ssa.MakeInterface:
+					v = x.X
+					continue
+				case *ssa.ChangeType:
+					v = x.X
+					continue
 				}
+				nx := st.Step(v)
+				if nx == nil {
+					break
+				}
+				v = nx
+			}
+			return v
+		}
+		id := func(v ssa.Value) string {
+			if a, ok := v.(*ssa.Alloc); ok {
+				return fmt.Sprintf("var@%p", a)
+			}
+			return "?" + v.String()
+		}
+		def := lf.Params[1]
+		seqs, trunc := ConcPaths(lf, ConcCfg{
+			Event: func(in ssa.Instruction, st *ConcState) string {
+				switch x := in.(type) {
+				case *ssa.Store:
+					if a, ok := resolve(st, x.Addr).(*ssa.Alloc); ok && strings.HasSuffix(TypeName(deref(a.Type())), "zapcore.Level") {
+						if resolve(st, x.Val) == ssa.Value(def) {
+							return "init(" + id(a) + ")"
+						}
+						return "store-other(" + id(a) + ")"
+					}
+				case *ssa.Call:
+					switch {
+					case IsCallTo(x, "flag.Var") && len(x.Call.Args) >= 1:
+						return "register(" + id(resolve(st, x.Call.Args[0])) + ")"
+					case IsCallTo(x, "(*flag.FlagSet).Var") && len(x.Call.Args) >= 2:
+						set := resolve(st, x.Call.Args[0])
+						if ld, ok := set.(*ssa.UnOp); ok && ld.Op == token.MUL {
+							if g, isG := ld.X.(*ssa.Global); isG && g.Pkg != nil && g.Pkg.Pkg.Path() == "flag" && g.Name() == "CommandLine" {
+								return "register(" + id(resolve(st, x.Call.Args[1])) + ")"
+							}
+						}
+						return "register-elsewhere"
+					}
+				case *ssa.Return:
+					if len(x.Results) == 1 {
+						return "ret(" + id(resolve(st, x.Results[0])) + ")"
+					}
+				}
+				return ""
+			},
+		})
+		var bad []string
+		for _, sq := range seqs {
+			toks := strings.Split(sq, " ; ")
+			ok := len(toks) == 3 && strings.HasPrefix(toks[0], "init(var@") && toks[1] == "register("+toks[0][5:] && toks[2] == "ret("+toks[0][5:]
+			if !ok {
+				bad = append(bad, sq)
 			}
 		}
-		ok := reg != nil
-		for _, r := range Returns(lf) {
-			ok = ok && RetVals(r)[0] == reg
-		}
-		al, isAlloc := reg.(*ssa.Alloc)
-		ok = ok && isAlloc && Strip(singleStoreLoose(al)) == ssa.Value(lf.Params[1])
-		c.Check(ok, "R20.4", lf.String(), "registers-returned-var", lf.Pos(), "flag.Var receives the address of the very variable that is returned, initialised with the default")
+		c.Check(!trunc && len(seqs) > 0 && len(bad) == 0, "R20.4", lf.String(), "registers-returned-var", lf.Pos(), "on every path a fresh Level variable is initialised with the default, registered with the process-wide flag set, and its address is what is returned (offending: %v)", bad)
 	}
 	set := c.Method(CorePath, "Level", "Set")
 	get := c.Method(CorePath, "Level", "Get")
